@@ -548,6 +548,10 @@ def build(spec, readonly=False):
             raise ValueError(form)
         if "cargs" in nc and isinstance(obj, dict):
             obj["args"] = tuple(nc["cargs"])
+            if len(nc["cargs"]) == 1 and nc.get("cargs_form") == "float":
+                obj["args"] = float(nc["cargs"][0])
+            elif len(nc["cargs"]) == 1 and nc.get("cargs_form") == "array":
+                obj["args"] = np.array(float(nc["cargs"][0]))
         b.nl.append({"lb": tl, "ub": tu, "m": m, "form": form})
         items.append(("nl", j, obj))
     if order is not None:
